@@ -138,7 +138,7 @@ def check(run: Run) -> None:
     for ti, text in enumerate(texts):
         modes = [("<", False), (">", True)] if ti % 3 else [("<", False), (">", False), ("<", True), (">", True)]
         for endian, align in modes:
-            pointer = rng.choice([None, None, "uint32", "uint16"])
+            pointer = rng.choice([None, None, "uint32", "uint16", "uint24"])
             datas = [F.random_data(rng, n) for n in (64, 24)] + [bytes(range(1, 65))]
             datas += [datas[0][:k] for k in rng.sample(range(0, 24), 4)]
             n_oracle += len(datas)
